@@ -119,6 +119,11 @@ func Eval(cs Case) (*core.Fail, bool) {
 		return core.Failf(pol+":full:replayed-differs-from-model", "%s: %s", desc(), d), false
 	}
 
+	// ---- the same through the production entry point exec.RunModule (execution and cached branch)
+	if f := evalRunModule(cs, cfg); f != nil {
+		return f, nontrivial
+	}
+
 	// ---- partial store: executed vs replayed, then both saved, loaded and merged onto the same base
 	po := cfg.NewPartialKV(10, zap.NewNop())
 	pr := cfg.NewPartialKV(10, zap.NewNop())
@@ -253,7 +258,7 @@ func Run(ctx *core.Ctx) int {
 	ctx.Cov["rule"] = fmt.Sprintf("%d combos x every chain of %d blocks, each block every operation list of length <=%d over (3 keys x 2 values x ordinals %v) + delete_prefix a/b/'' (thorough: + 3-block chains of single operations). For each block: real execution through the host interface + Flush gives deltas and ReadOps(); a second store in the same pre-state gets Reset()+ApplyOps(log) (what RunModule's cached branch does); deltas compared one by one (proto.Equal), content and SizeBytes compared; same for a PartialKV incl. DeletedPrefixes, then both partials saved, loaded and merged onto 2 non-empty bases. Non-trivial: a block with >=2 operations or a delete_prefix on a non-empty pre-state.", len(combos), nblocks, maxOps, ords)
 	ctx.Assume = []string{
 		"the replaying store is Reset() before each block as pipeline.resetStores does",
-		"the cached branch of exec.RunModule is mirrored by Reset+ApplyOps; RunModule itself is exercised by the whole-system checks (C01, C07)",
+		"both the store-level mirror (Reset+ApplyOps on the log read after Flush) and the production entry point (exec.RunModule on a StoreModuleExecutor with a scripted module issuing the operations in call order, then RunModule's cached branch on the recorded outputForFiles) are compared",
 	}
 	return ctx.Finish(core.JSONRecheck(ctx.Prop, Eval))
 }
